@@ -1,7 +1,7 @@
 PROP = dict(
-    drivers=['Sauce', 'SauceUni'],
-        gens=['sauce', 'codec', 'sauceuni'],
-        lake=['IcyVerif.Props.C11', 'IcyVerif.Props.C11Uni'],
+    drivers=['Sauce', 'SauceUni', 'SauceLoad'],
+        gens=['sauce', 'codec', 'sauceuni', 'xb', 'binfmt'],
+        lake=['IcyVerif.Props.C11', 'IcyVerif.Props.C11Uni', 'IcyVerif.Props.C11Load'],
         ns='IcyVerif.C11',
         theorems=['extract_total', 'header_len_le', 'from_bytes_split_total', 'write_outcome',
                   'extract_write', 'split_exact', 'load_ignores_sauce', 'set_sauce_defaults', 'loader_width',
@@ -9,10 +9,21 @@ PROP = dict(
                   'width_round_trip', 'writers_covered',
                   'string_rt', 'string_rt_value', 'string_rt_exact', 'string_rt_equal', 'string_rt_nul',
                   'string_read_total',
-                  'cp437_table_facts', 'from_char_exact', 'string_uni_rt', 'string_uni_rt_iff', 'string_uni_rt_nul', 'from_uni_value'],
+                  'cp437_table_facts', 'from_char_exact', 'string_uni_rt', 'string_uni_rt_iff', 'string_uni_rt_nul', 'from_uni_value',
+                  'load_composed', 'load_plain', 'record_xb', 'record_idf', 'record_adf', 'record_bin', 'record_tnd_partial',
+                  'loader_table', 'load_ignores_sauce_bin', 'load_ignores_sauce_tnd_partial'],
         harness='c11',
         design='DESIGN.md §4 C11',
-        technique='STRINGS: string_uni_rt / string_uni_rt_iff state the field round trip on the Rust Strings the API accepts (lists of code '
+        technique='LOADERS: the last sentence of the property composed with the format loaders for xb/bin/adf/idf/tnd: SauceLoad.fromBytes = '
+                  'fromBytesSplit (full extract) then BinFormats.loadBody (C05 model, read-only); load_composed (for ALL content and ALL '
+                  'metadata the loader gets exactly `content` and the carried record), the SAUCE size rule per loader (record_xb/idf '
+                  'unconditional, record_adf/bin by induction over the placed cells: set_height(y+1) before every set_char and '
+                  'crop_loaded_file overwrite the record heights, record_tnd_partial by a simulation over the Tundra command loop), '
+                  'load_ignores_sauce_bin: at loader defaults the loaded buffer EQUALS the one of the content alone (tnd: except the recorded '
+                  'no-cell site). Buffer::from_bytes itself is pinned by the translator (extract sees the whole `bytes`, `len` changes by '
+                  'sauce_header_len only, both loader calls get &bytes[..len]) and tied by a probe: the .asc loader draws every byte of '
+                  '{0x1A} u 0x21..=0x7E as one cell, so the cells of the loaded buffer ARE the bytes the loader was handed. '
+                  'STRINGS: string_uni_rt / string_uni_rt_iff state the field round trip on the Rust Strings the API accepts (lists of code '
                   'points): from -> append_to -> read -> to_string gives the string back IFF it has at most LEN characters, all in the '
                   'regenerated CP437 table (256 entries, Nodup kernel-checked by list traversal), and no trailing blank/NUL; every other '
                   'character becomes `?`, longer strings are cut. '
@@ -34,14 +45,25 @@ PROP = dict(
              'read/append/len/eq; SauceString::from / to_string on Rust STRINGS (ASCII, every CP437 character, characters outside '
              'the table up to U+10FFFF, NULs and blanks at every position, exactly LEN / LEN+1 characters, a multi-byte character at the '
              'cut) through from -> append_to -> read -> to_string for the field shapes 35/20/5 blank-padded and 64/22 NUL-padded; '
-             'a 2 GiB file. distinct_nontrivial = distinct inputs (metadata cases, files, strings)',
+             'a 2 GiB file; PROBE: printable content (incl. SAUCE/COMNT look-alike ends) + write_sauce_info of all 9 variants x 0, 1, 254, 255 '
+             '(thorough: 12 counts) comment lines through Buffer::from_bytes(.asc) and through the ANSI fallback of an unknown extension: '
+             'cells of the loaded buffer = content byte for byte (`cut-exact`), `sauce split` vs fromBytesSplit; tails the engine does not write '
+             '(EOF missing, no content, count field +-1/0, cut record, broken date / COMNT id, doubled EOF); BINARY FORMATS: the '
+             'writer\'s own file for xb bin adf idf tnd x the same comment counts, at loader defaults and elsewhere, + tail variants: '
+             'digest of Buffer::from_bytes vs SauceLoad.fromBytes, picture = picture of load_buffer(content, None); splice and '
+             'to_bytes/from_bytes cases with the boundary counts for every one of the ten writers; .tnd content without a cell. '
+             'distinct_nontrivial = distinct inputs (metadata cases, files, strings)',
         modelled='SauceString::{read, append_to, from (any Rust String: first-index search in CP437_TO_UNICODE, `?` substitution, cut at LEN characters), len, to_string (bytes -> characters through the table), PartialEq}; Buffer::write_sauce_info (all '
                  'arms, error cases, file_size, u16 casts); SauceData::extract (every index/slice/subtraction/assert as a '
-                 'panic site, all error returns, per-type interpretation); Buffer::from_bytes length arithmetic and slice; '
-                 'Buffer::set_sauce width/ice/font rule',
+                 'panic site, all error returns, per-type interpretation); Buffer::from_bytes (argument of extract, length arithmetic, slice, both '
+                 'loader calls: pinned by the translator and probed through the .asc loader); Buffer::set_sauce width/ice/font rule; '
+                 'Buffer::from_bytes composed with the xb/bin/adf/idf/tnd loaders of Model/BinFormats.lean (size/ice part of '
+                 'set_sauce(.., true), set_char/set_height/crop_loaded_file placement, Tundra command loop)',
         not_modelled='chrono (date parser verdict is a parameter supplied by the harness from the implementation; Utc::now is '
-                     'an input); creation_time; the format '
-                     'loaders behind from_bytes (picture equality is checked by the oracle run only); get_font(0).unwrap() '
+                     'an input); creation_time; the TEXT '
+                     'format loaders behind from_bytes (ans asc avt pcb, icy: picture equality is checked by the oracle run only; the .asc loader '
+                     'serves as a probe, it is not modelled); in the composed binary-format statements the replacement of font slot 0 by a font '
+                     'NAMED in the record (BitFont::from_sauce_name; dispatch-level theorem set_sauce_defaults only); get_font(0).unwrap() '
                      '(a buffer without font slot 0); calling SauceString::read twice on the same value',
         assumptions=['NaiveDateTime::parse_from_str only looks at the 8 date bytes (dateOk is a function of them)',
                      'files shorter than 2^63 bytes (usize arithmetic other than subtraction does not overflow)'],
